@@ -1,4 +1,5 @@
 import Hifi.Lemmas.EpochOrd
+import Hifi.Lemmas.ViewsFloat
 /-
   C04  Epoch ± Duration is exact in the epoch's own time scale; differences invert it.
 -/
@@ -119,6 +120,75 @@ theorem diff_cross_scale (a b : Ep) (ha : a.dur.Canon) (hb : b.dur.Canon) (hta :
   have h := sub_spec a.dur r ha r2
   refine ⟨_, rfl, h.1, ?_⟩
   rw [h.2, r3]; unfold Ep.inst; simp only; rw [instV_uniform a.ts a.dur.val hta]; congr 1; omega
+
+/-! ### `Epoch + f64` seconds on SoftF64 (`impl Add<f64> for Epoch` as repaired by 62d8753:
+    `if seconds.trunc() == seconds { (seconds as i64) * Unit::Second } else { seconds * Unit::Second }`) -/
+open Hifi.F64 Hifi.ViewsF Hifi.DurFloat in
+/-- **whole seconds of ANY magnitude**: for every integer-valued (canonical, finite) double x = k the elapsed
+    time grows by exactly k·10^9 ns, saturating: clampD (e + clampD (k·10^9)); canonical; no 2^53 limit
+    (the integer path: saturating `as i64`, exact integer product) -/
+theorem add_float_whole_seconds_exact (e : Ep) (he : e.dur.Canon) (x : F64) (hw : x.wf = true)
+    (hf : x.isFinite = true) (k : Int) (hk : toRat x = (k : Rat)) :
+    (epochAddF e.dur x).Canon ∧ (epochAddF e.dur x).val = clampD (e.dur.val + clampD (k * 1000000000)) :=
+  epochAddF_whole e.dur he x hw hf k hk
+
+open Hifi.F64 Hifi.ViewsF Hifi.DurFloat in
+/-- the float model and the integer model `Ep.addWholeSeconds` (above) are the same function on
+    integer-valued doubles: the SoftF64 evaluation of `trunc == x` and of `x as i64` yields exactly `satI64 k` -/
+theorem add_float_is_addWholeSeconds (e : Ep) (x : F64) (hw : x.wf = true) (hf : x.isFinite = true) (k : Int)
+    (hk : toRat x = (k : Rat)) : epochAddF e.dur x = (e.addWholeSeconds k).dur := by
+  obtain ⟨s, m, ex, rfl⟩ := exists_fin_of_isFinite hf
+  have hb := brk_of_int s m ex hw k hk
+  unfold epochAddF Ep.addWholeSeconds; rw [hb]; simp only [if_true]
+  have hcast : toI64 (fin s m ex) = satI64 k := by
+    unfold toI64 satI64; rw [toIntSat_fin, hk, truncQ_intCast]
+    grind
+  rw [hcast]
+
+open Hifi.F64 Hifi.ViewsF Hifi.DurFloat in
+/-- hence exactly e + k·10^9 whenever that is representable -/
+theorem add_float_whole_seconds_in_range (e : Ep) (he : e.dur.Canon) (x : F64) (hw : x.wf = true)
+    (hf : x.isFinite = true) (k : Int) (hk : toRat x = (k : Rat))
+    (h1 : DMIN ≤ k * 1000000000 ∧ k * 1000000000 ≤ DMAX)
+    (h2 : DMIN ≤ e.dur.val + k * 1000000000 ∧ e.dur.val + k * 1000000000 ≤ DMAX) :
+    (epochAddF e.dur x).val = e.dur.val + k * 1000000000 := by
+  rw [(epochAddF_whole e.dur he x hw hf k hk).2]
+  unfold DMIN DMAX at h1 h2; simp only [NPCs_eq] at h1 h2
+  rw [clampD_mid (x := k * 1000000000) (by omega) (by omega), clampD_mid (by omega) (by omega)]
+
+open Hifi.F64 Hifi.ViewsF Hifi.DurFloat in
+/-- +inf / -inf are "whole" for the test (`inf.trunc() == inf`): the cast and the sum saturate -/
+theorem add_float_infinite (e : Ep) (he : e.dur.Canon) :
+    (epochAddF e.dur (inf false)).val = clampD (e.dur.val + DMAX) ∧
+    (epochAddF e.dur (inf true)).val = clampD (e.dur.val + DMIN) := by
+  have h := epochAddF_inf e.dur he; exact ⟨h.1, h.2.1⟩
+
+open Hifi.F64 Hifi.ViewsF Hifi.DurFloat in
+/-- a finite double that is not a whole number takes the float path: the elapsed time grows by exactly
+    the duration `x * Unit::Second` denotes (C18: t = clampD (trunc (rnd (x·10^9)))), saturating; canonical -/
+theorem add_float_fractional_seconds (e : Ep) (he : e.dur.Canon) (x : F64) (hf : x.isFinite = true)
+    (hb : brk x = false) :
+    ∃ t, unitTimesF 1000000000 x = some t ∧ (epochAddF e.dur x).Canon ∧
+      (epochAddF e.dur x).val = clampD (e.dur.val + t) := epochAddF_fractional e.dur he x hf hb
+
+open Hifi.F64 Hifi.ViewsF Hifi.DurFloat in
+/-- the test `seconds.trunc() == seconds` on a canonical finite double is exactly "integer-valued" -/
+theorem whole_number_test (s : Bool) (m : Nat) (e : Int) (hw : wf (fin s m e) = true) :
+    brk (fin s m e) = true ↔ ∃ N : Int, toRat (fin s m e) = (N : Rat) :=
+  ⟨int_of_brk s m e hw, fun ⟨N, h⟩ => brk_of_int s m e hw N h⟩
+
+open Hifi.F64 Hifi.ViewsF Hifi.DurFloat in
+/-- `Epoch + f64` never panics, for any double (NaN adds nothing); the result is canonical -/
+theorem add_float_total (e : Ep) (he : e.dur.Canon) (x : F64) :
+    (epochAddF e.dur x).Canon ∧ epochAddF e.dur nan = Dur.add e.dur Dur.ZERO :=
+  ⟨epochAddF_total e.dur he x, epochAddF_nan e.dur⟩
+
+open Hifi.F64 Hifi.ViewsF Hifi.DurFloat in
+/-- the repaired defect D19 stays repaired: 4611686019.0 s (whose product with 1e9 is not a double) now adds
+    exactly 4 611 686 019·10^9 ns, and 1e300 s saturates -/
+theorem add_float_d19_repaired :
+    (epochAddF ⟨0, 0⟩ (F64.ofInt 4611686019)).val = 4611686019000000000 ∧
+    epochAddF ⟨0, 0⟩ (F64.ofBits 0x7e37e43c8800759c) = Dur.MAX := by decide +kernel
 
 -- non-vacuity: an epoch before its reference, a negative duration, no bound hit
 example : (Dur.mk (-1) 5).Canon ∧ (Dur.mk (-3) 17).Canon ∧
